@@ -95,8 +95,14 @@ def _try_to_reorder(
                 **kwargs)
         logger.info('Reordering needed...')
         # disable reordering requests while swapping
+        last_len = bdd._last_len
         bdd._last_len = None
-        reorder(bdd)
+        try:
+            reorder(bdd)
+        except BaseException:
+            # dynamic reordering remains enabled
+            bdd._last_len = last_len
+            raise
         len_after = len(bdd)
         # try again,
         # reordering disabled to avoid livelock
